@@ -73,6 +73,8 @@ func runTwinStream(seed int64, n int, out, backendSpec string) *RunReport {
 		for _, be := range backendsOf(backendSpec) {
 			g := NewGen(histSeed(seed, round) + 23)
 			h := NewHistGen(g, HistCfg{Colls: 1})
+			// bias the query generator towards the fields some twin has an index on
+			h.colls["t0"] = &collState{indexes: []string{"a", "b", "x", "xy", "n", "n.a", "s", "t"}}
 			env, err := newEnv(be)
 			if err != nil {
 				f.failf("open: %v", err)
@@ -137,8 +139,23 @@ func runTwinStream(seed int64, n int, out, backendSpec string) *RunReport {
 			}
 			compareTwins("after the point writes")
 			// queries
-			for k := 0; k < 25; k++ {
-				q0 := h.query("t0", true, true)
+			// systematic part: every indexed field, scanned whole and by half-open ranges, in both directions
+			var fixed []QSpec
+			for _, fld := range []string{"a", "b", "x", "xy", "n", "n.a", "s", "t"} {
+				for _, dir := range []int{1, -1} {
+					fixed = append(fixed, QSpec{Coll: "t0", Steps: []QStep{{Kind: "sort", Opts: []SortOpt{{fld, dir}}}}})
+					lit := pickOf(g, []interface{}{int(g.Intn(6)), "a", nil, float64(2.5)})
+					op := pickOf(g, []string{"OGt", "OGtEq", "OLt", "OLtEq"})
+					fixed = append(fixed, QSpec{Coll: "t0", Steps: []QStep{{Kind: "where", C: &Crit{Kind: "cmp", Op: op, Field: fld, Val: Operand{Lit: lit}}}, {Kind: "sort", Opts: []SortOpt{{fld, dir}}}}})
+				}
+			}
+			for k := 0; k < 25+len(fixed); k++ {
+				var q0 QSpec
+				if k < len(fixed) {
+					q0 = fixed[k]
+				} else {
+					q0 = h.query("t0", true, true)
+				}
 				sanitizeQuery(&q0)
 				opts, skip, limit, hasCrit := q0.effective()
 				windowed := skip > 0 || limit >= 0
@@ -217,7 +234,7 @@ func runTwinStream(seed int64, n int, out, backendSpec string) *RunReport {
 				}
 				kind := g.Intn(3)
 				u := Updater{Kind: pickOf(g, []string{"funset", "funcopyset", "funincr"}), Field: pickOf(g, []string{"a", "b", "x", "n.a"}), Val: keyDomSanitize(h.fieldValue())}
-				kvs := map[string]interface{}{pickOf(g, []string{"a", "b", "x"}): int64(g.Intn(8))}
+				kvs := map[string]interface{}{pickOf(g, []string{"a", "b", "x", "n.a", "n.a", "n.b"}): int64(g.Intn(8))}
 				for _, tc := range twinCfgs {
 					q := q0
 					q.Coll = tc.name
@@ -336,7 +353,7 @@ func runScaleStream(seed int64, n int, out, backendSpec, tier string) *RunReport
 			for _, size := range sizes {
 				for sc := 0; sc < 7; sc++ {
 					idxs := idxSets[(round+size+sc)%len(idxSets)]
-					if size > 1024 && sc <= 1 {
+					if size >= 300 && sc <= 1 {
 						idxs = []string{"a"} // the rewritten field is indexed and drives the selection
 					}
 					if sc == 4 && len(idxs) == 0 {
@@ -384,8 +401,8 @@ func runScaleStream(seed int64, n int, out, backendSpec, tier string) *RunReport
 					// the selecting query
 					var qs QSpec
 					qsel := (sc + round) % 5
-					if size > 1024 && sc <= 1 {
-						qsel = 1 + 2*sc // a range on a / a sort on a: the scan runs through the index being rewritten
+					if size >= 300 && sc <= 1 {
+						qsel = 1 + 3*sc // a range on a / a sort on a alone: the scan runs through the index being rewritten
 					}
 					switch qsel {
 					case 0:
@@ -402,6 +419,29 @@ func runScaleStream(seed int64, n int, out, backendSpec, tier string) *RunReport
 					}
 					if sc == 6 { // Delete through a sorted window without a limit
 						qs = QSpec{Coll: "c", Steps: []QStep{{Kind: "sort", Opts: []SortOpt{{"k", -1}}}, {Kind: "skip", N: 4}}}
+					}
+					// a sibling collection with its own index must never be affected
+					rec(&Op{Kind: "CreateCollection", Coll: "c2"})
+					rec(&Op{Kind: "CreateIndex", Coll: "c2", Field: "a"})
+					sib := make([]map[string]interface{}, 8)
+					for i := range sib {
+						sib[i] = scaleDoc(i)
+					}
+					rec(&Op{Kind: "Insert", Coll: "c2", Docs: sib})
+					if sc == 0 || len(idxs) == 2 {
+						// read agreement at this size (ties in g and a; sorts in memory and through indexes; windows)
+						for _, rq := range []QSpec{
+							{Coll: "c", Steps: []QStep{{Kind: "sort", Opts: []SortOpt{{"g", 1}}}, {Kind: "skip", N: 10}, {Kind: "limit", N: 5}}},
+							{Coll: "c", Steps: []QStep{{Kind: "sort", Opts: []SortOpt{{"s", -1}, {"_id", 1}}}, {Kind: "skip", N: 10}, {Kind: "limit", N: 5}}},
+							{Coll: "c", Steps: []QStep{{Kind: "where", C: &Crit{Kind: "cmp", Op: "OGtEq", Field: "a", Val: Operand{Lit: 2}}}, {Kind: "sort", Opts: []SortOpt{{"g", -1}}}, {Kind: "limit", N: 7}}},
+							{Coll: "c", Steps: []QStep{{Kind: "where", C: &Crit{Kind: "cmp", Op: "OLt", Field: "g", Val: Operand{Lit: 5}}}, {Kind: "sort", Opts: []SortOpt{{"a", 1}}}, {Kind: "skip", N: 3}}},
+							{Coll: "c", Steps: []QStep{{Kind: "skip", N: 2}, {Kind: "limit", N: 4}}},
+						} {
+							for _, msg := range readOracles(db, rq, false) {
+								f.failf("%s; query %s; size %d, indexes %v, backend %s", msg, clip(rq.term(), 300), size, idxs, be)
+							}
+							evals++
+						}
 					}
 					before, _ := db.FindAll(query.NewQuery("c"))
 					beforeById := map[string]*d.Document{}
@@ -420,9 +460,9 @@ func runScaleStream(seed int64, n int, out, backendSpec, tier string) *RunReport
 						if err != nil {
 							return
 						}
-						want := 0
+						want := 1 + 8*2 // the sibling collection: metadata + 8 documents + 8 index entries
 						if present {
-							want = 1 + ndocs*(1+nidx)
+							want += 1 + ndocs*(1+nidx)
 						}
 						if len(dump.([]T)) != want {
 							f.failf("%s: the store holds %d keys, expected %d (1 metadata + %d documents x (1 + %d indexes)); %s", what, len(dump.([]T)), want, ndocs, nidx, desc)
@@ -563,6 +603,9 @@ func runScaleStream(seed int64, n int, out, backendSpec, tier string) *RunReport
 						}
 						auditKeys("after Update", len(before), len(idxs), true)
 						distinct[fmt.Sprintf("updatemap/%d/%s", len(idxs), sizeClass(size))] = true
+					}
+					if via, err := db.FindAll(query.NewQuery("c2").Sort(query.SortOption{Field: "a", Direction: 1})); err != nil || len(via) != 8 {
+						f.failf("the sibling collection lost documents or index entries (%d of 8 through its index, err %v); %s", len(via), err, desc)
 					}
 					if small && len(steps) > 0 {
 						hr := &HistResult{Steps: steps, Backend: be}
